@@ -38,6 +38,11 @@ pub fn set_crash_note(s: &str) {
     n.len = l;
 }
 
+pub fn crash_note() -> String {
+    let n = unsafe { &*NOTE.0.get() };
+    String::from_utf8_lossy(&n.buf[..n.len]).to_string()
+}
+
 pub fn set_crash_fd(fd: i32) {
     unsafe { CRASH_FD = fd }
 }
